@@ -696,3 +696,71 @@ Definition envfile_mount (w : world) (f : str) : mount := mk_mount (abspath w.(w
 Inductive own_chain : stepT -> stepT -> Prop :=
 | oc_here : forall p e a o, own_chain (SArg true false p e a o) a
 | oc_next : forall p e a o d, own_chain a d -> own_chain (SArg true false p e a o) d.
+
+(* ------------------------------------------------------------------
+   intermediate.py: StepIR.getExecPath(referrer) / getPaths / getLibraryPaths.
+   A dependency is addressed from the point of view of the step that consumes
+   it (the referrer): with automatic stable paths (pathsConfig.stablePaths is
+   None) it is seen under /bob/<variant-id>/workspace iff the *consumer* runs
+   in a sandbox image, otherwise at its storage path. *)
+Record irstep := {
+  ir_valid : bool;
+  ir_stable : option bool;        (* stablePaths(): None = automatic, Some = forced by the sandbox mode *)
+  ir_sandboxed : bool;            (* getSandbox() is not None *)
+  ir_vid : str;                   (* asHexStr(getVariantId()) *)
+  ir_storage : str;               (* getStoragePath() *)
+  ir_name : str                   (* getPackage().getName() *)
+}.
+
+Definition s_bob_dir : str := [47; 98; 111; 98].                                   (* /bob *)
+Definition s_workspace : str := [119; 111; 114; 107; 115; 112; 97; 99; 101].        (* workspace *)
+Definition s_invalid_exec : str :=                                                   (* /invalid/exec/path/of/ *)
+  [47; 105; 110; 118; 97; 108; 105; 100; 47; 101; 120; 101; 99; 47; 112; 97; 116; 104; 47; 111; 102; 47].
+
+(* os.path.join(a, b) *)
+Definition os_join (a b : str) : str :=
+  if is_abs b then b
+  else match a with
+       | [] => b
+       | _ => if last_is_slash a then a ++ b else a ++ [ch_slash] ++ b
+       end.
+
+Definition exec_path (s : irstep) (referrer : option irstep) : str :=
+  if s.(ir_valid) then
+    let stable := match s.(ir_stable) with
+                  | Some b => b
+                  | None => (match referrer with Some r => r | None => s end).(ir_sandboxed)
+                  end in
+    if stable then os_join (os_join s_bob_dir s.(ir_vid)) s_workspace else s.(ir_storage)
+  else s_invalid_exec ++ s.(ir_name).
+
+Record irtool := { it_step : irstep; it_path : str; it_libs : list str }.
+
+Fixpoint insert_key {A} (x : str * A) (l : list (str * A)) : list (str * A) :=
+  match l with
+  | [] => [x]
+  | y :: r => if str_leb (fst x) (fst y) then x :: l else y :: insert_key x r
+  end.
+Fixpoint sort_by_key {A} (l : list (str * A)) : list (str * A) :=
+  match l with [] => [] | x :: r => insert_key x (sort_by_key r) end.
+
+Fixpoint insert_str (x : str) (l : list str) : list str :=
+  match l with
+  | [] => [x]
+  | y :: r => if str_leb x y then x :: l else y :: insert_str x r
+  end.
+Fixpoint sort_str (l : list str) : list str :=
+  match l with [] => [] | x :: r => insert_str x (sort_str r) end.
+
+(* sorted([ join(tool.getStep().getExecPath(self), tool.getPath()) for tool in tools.values() ]) *)
+Definition tool_paths (self : irstep) (tools : list (str * irtool)) : list str :=
+  sort_str (map (fun nt => os_join (exec_path (snd nt).(it_step) (Some self)) (snd nt).(it_path)) tools).
+
+(* for (name, tool) in sorted(tools.items()): [ join(tool.getStep().getExecPath(self), l) for l in tool.getLibs() ] *)
+Definition library_paths (self : irstep) (tools : list (str * irtool)) : list str :=
+  flat_map (fun nt => map (os_join (exec_path (snd nt).(it_step) (Some self))) (snd nt).(it_libs))
+           (sort_by_key tools).
+
+(* the depMounts entry of a tool as computed for the consumer *)
+Definition tool_mount (self : irstep) (t : irtool) : str * str :=
+  (t.(it_step).(ir_storage), exec_path t.(it_step) (Some self)).
